@@ -6,8 +6,9 @@ import time
 
 VERIF = os.path.dirname(os.path.dirname(os.path.abspath(__file__)))
 KNOWN = os.path.join(VERIF, 'KNOWN_FINDINGS.txt')
-EVIDENCE = os.path.join(VERIF, 'evidence')
-REPLAY = os.path.join(VERIF, 'replay')
+_OUT = os.environ.get('BGCHECK_OUT') or VERIF
+EVIDENCE = os.path.join(_OUT, 'evidence')
+REPLAY = os.path.join(_OUT, 'replay')
 
 
 class Finding:
